@@ -1238,6 +1238,7 @@ func Run(c *fw.Ctx) {
 		"texts are compared after NFC on both sides (weaker reading of 'specified text' + 'NFC')",
 		"generated CMaps follow ISO 32000-1 §9.10.3 / Adobe TN 5014+5411: <= 100 entries per section, bfrange codes differ only in the last byte, offset-form ranges never carry out of the last target byte, codes unique, mixed-width codespaces prefix-free, codes of different widths numerically distinct; lookup strings contain only mapped codes",
 		"golang.org/x/text/unicode/norm is the NFC reference (same module version as tabula's)",
+		"PostScript comments in generated CMaps (the DSC header of CMap resources, a remark in front of a section) carry no CMap operators and no hex strings: the statement does not speak about comments, and the pinned parser finds operators by text search, so a comment that spells an operator is outside what is asserted",
 	)
 	loadDifferencesFonts(c)
 	runTables(c)
